@@ -41,7 +41,12 @@ def _prim_desc(path):
 
 def rule_r1_r4(rep, repo, eng):
     state = set(eng.STORE_SITES)
-    missing = EXPECTED_STATE - state
+    # the caches named by the constructor's dispatch chain (plus the Coulomb table) must be state
+    from gridlint.props.c02 import AngularModel
+    m = AngularModel(repo)
+    expected = {("angular", norm(br["cache_dict"])) for br in m.chains["__init__"][0].values()}
+    expected.add(("coulomb", "_ATOMIC_GAUSS_PARAMS_CACHE"))
+    missing = expected - state
     if missing:
         raise AnalysisError(f"anchor vanished: module-level caches not found as written state: {sorted(missing)}")
     for key in sorted(state):
